@@ -20,6 +20,7 @@ type Baseline struct {
 	Note        string              `json:"note"`
 	Obligations map[string][]string `json:"obligations"` // property -> obligation names that discharge on the pinned tree
 	Unproved    map[string][]string `json:"unproved"`    // property -> obligations generated on the pinned tree that did not enter the baseline
+	Claims      map[string][]string `json:"claims"`      // property -> name prefixes claimed wholesale: anchored `requires` clauses (also those with no site yet) and the lock/hand-off discipline of lockcheck functions; a new obligation under such a prefix counts as a baseline obligation
 }
 
 type KnownFinding struct {
@@ -51,6 +52,9 @@ func loadBaseline(root string) *Baseline {
 	}
 	if b.Unproved == nil {
 		b.Unproved = map[string][]string{}
+	}
+	if b.Claims == nil {
+		b.Claims = map[string][]string{}
 	}
 	return b
 }
@@ -244,6 +248,18 @@ func report(root, prop, tier string, seed int, res *checkResult, base *Baseline,
 	// unless some site of that clause was already unproved on the pinned tree (then a new site stays undecided)
 	for _, n := range base.Unproved[prop] {
 		delete(baseStem, stem(n))
+	}
+	// clauses and disciplines claimed wholesale (see Baseline.Claims)
+	for _, o := range res.obls {
+		if inBase[o.Name] {
+			continue
+		}
+		for _, c := range base.Claims[prop] {
+			if strings.HasPrefix(o.Name, c) {
+				inBase[o.Name] = true
+				break
+			}
+		}
 	}
 	for _, o := range res.obls {
 		switch o.Kind {
@@ -553,7 +569,8 @@ func cmdBaseline(args []string) {
 			}
 			sort.Strings(unproved)
 			base.Unproved[p] = unproved
-			fmt.Printf("%s: %d unproved obligations recorded\n", p, len(unproved))
+			base.Claims[p] = e.claimsFor(p, unproved)
+			fmt.Printf("%s: %d unproved obligations recorded, %d wholesale claims\n", p, len(unproved), len(base.Claims[p]))
 			continue
 		}
 		for s := 0; s < *seeds; s++ {
@@ -590,6 +607,7 @@ func cmdBaseline(args []string) {
 		}
 		sort.Strings(unproved)
 		base.Unproved[p] = unproved
+		base.Claims[p] = e.claimsFor(p, unproved)
 		fmt.Printf("%s: %d of %d obligations enter the baseline\n", p, len(names), total)
 	}
 	os.MkdirAll(filepath.Join(root, "baseline"), 0o755)
@@ -633,4 +651,53 @@ func stem(n string) string {
 		return n[:i]
 	}
 	return n
+}
+
+// claimsFor: the name prefixes claimed wholesale for a property (see Baseline.Claims). A prefix under which some
+// obligation is unproved on the pinned tree is not claimed.
+func (e *Engine) claimsFor(prop string, unproved []string) []string {
+	var out []string
+	add := func(prefix string) {
+		for _, u := range unproved {
+			if strings.HasPrefix(u, prefix) {
+				return
+			}
+		}
+		out = append(out, prefix)
+	}
+	for _, name := range e.funcsForProp(prop) {
+		con := e.cs.Funcs[name]
+		if con == nil || con.NoBody || con.Extern || con.Iface {
+			continue
+		}
+		for i, at := range con.Ats {
+			if at.Kind != "requires" {
+				continue
+			}
+			if len(at.Cl.Props) > 0 && !containsStr(at.Cl.Props, prop) {
+				continue
+			}
+			lbl := at.Cl.Label
+			if lbl == "" {
+				lbl = fmt.Sprintf("%d", i+1)
+			}
+			add(fmt.Sprintf("%s/at:%s(%s).%s#", name, at.Anchor.Kind, at.Anchor.Pattern, lbl))
+		}
+		if con.Opts["lockcheck"] != "" {
+			for _, k := range []string{"lock:guard:", "lock:block:", "lock:held:", "lock:nodouble:", "handoff:"} {
+				add(name + "/" + k)
+			}
+		}
+	}
+	sort.Strings(out)
+	return out
+}
+
+func containsStr(xs []string, x string) bool {
+	for _, y := range xs {
+		if y == x {
+			return true
+		}
+	}
+	return false
 }
